@@ -653,8 +653,8 @@ Lemma visible_sample_out_of_tolerance ts tol st k s :
 Proof.
   intros Hl Hall. unfold visible_sample. rewrite Hl.
   assert (E : in_range (tms_of_nano (ts - tol)) (tms_of_nano ts) s = []).
-  { unfold in_range. induction Hall as [|x r Hx Hr IH]; [reflexivity|]. cbn [filter]. cbv beta in Hx.
-    destruct (Z.leb_spec (tms_of_nano (ts - tol)) (fst x)); destruct (Z.leb_spec (fst x) (tms_of_nano ts)); cbn [andb]; try exact IH. all: idtac. Show. exfalso; lia. }
+  { clear Hl. unfold in_range. induction Hall as [|x r Hx Hr IH]; [reflexivity|]. cbn [filter]. cbv beta in Hx.
+    destruct (Z.leb_spec (tms_of_nano (ts - tol)) (fst x)); destruct (Z.leb_spec (fst x) (tms_of_nano ts)); cbn [andb]; try exact IH; exfalso; lia. }
   now rewrite E.
 Qed.
 
@@ -692,8 +692,8 @@ Proof.
   - pose proof (eval_inv c m ts qo limit qerr res Hinv) as H.
     destruct (eval c m ts qo limit qerr res) as [m' out]. exact H.
   - unfold send_alerts. cbn [fst snd]. apply inv_map_keyed; auto.
-    + intros ka. destruct (needs_sending (snd ka) ts resend interval); reflexivity.
-    + intros ka Hw. destruct (needs_sending (snd ka) ts resend interval); [|exact Hw].
+    + intros ka. destruct (needs_sending (snd ka) ts resend); reflexivity.
+    + intros ka Hw. destruct (needs_sending (snd ka) ts resend); [|exact Hw].
       cbn [snd]. now rewrite wf_mark_sent.
   - exact Hinv.
   - apply inv_nil.
@@ -701,8 +701,8 @@ Proof.
     destruct (query_store _ _ st); [exact Hinv|]. cbn [fst snd].
     apply inv_map_keyed; auto.
     + intros; apply restore_alert_key.
-    + intros ka Hw. unfold restore_alert. destruct (lookup (fst ka) _) as [s|]; [|exact Hw].
-      destruct (last_sample s) as [[t [v|]]|]; try exact Hw. cbn [snd]. now rewrite wf_set_activeAt.
+    + intros ka Hw. unfold restore_alert. destruct (lookup (fst ka) _) as [ss|]; [|exact Hw].
+      destruct (last_sample ss) as [[t1 [v1|]]|]; exact Hw.
 Qed.
 
 Theorem run_world_inv ops : forall w, inv (snd w) -> inv (snd (run_world w ops)).
